@@ -23,6 +23,7 @@ type Obligation struct {
 	Gen    *Gen
 	// Vacuity / cover checks are "must be sat" queries.
 	MustSat bool
+	Canary  bool
 	seeded  bool
 	caseSub *mergeCase
 	// result
@@ -396,6 +397,22 @@ func (g *Gen) wfScalar(st *State, t *Term, ty types.Type) {
 	}
 }
 
+// wfValIf: the reference bounds of wfVal, under a condition.
+func (g *Gen) wfValIf(st *State, c *Term, v Val) {
+	switch v.K {
+	case VScalar:
+		if v.T != nil && v.Ty != nil && isRefType(v.Ty) && v.T.Op != "int" {
+			g.assume(Implies(c, Le(v.T, st.Clk)))
+		}
+	case VSlice:
+		g.assume(Implies(c, Le(v.F[0].T, st.Clk)))
+	case VStruct, VTuple:
+		for _, f := range v.F {
+			g.wfValIf(st, c, f)
+		}
+	}
+}
+
 func (g *Gen) wfVal(st *State, v Val) {
 	switch v.K {
 	case VScalar:
@@ -459,12 +476,15 @@ func (g *Gen) load(st *State, a *Addr, ty types.Type) Val {
 		}
 		return r
 	})
-	if verClk != nil && verClk != st.Clk {
+	// every reference in the heap is no younger than the current clock; if the object
+	// read already existed when this heap version was written (ref <= version clock),
+	// what it holds is no younger than that version either. (Cells of objects that a
+	// callee allocates later are not covered by the version bound.)
+	g.wfVal(st, v)
+	if verClk != nil && verClk != st.Clk && (a.Root == RObj || a.Root == RElem) && !hasFreeBound(a.Ref) {
 		tmp := *st
 		tmp.Clk = verClk
-		g.wfVal(&tmp, v)
-	} else {
-		g.wfVal(st, v)
+		g.wfValIf(&tmp, Le(a.Ref, verClk), v)
 	}
 	if a.Root == RGlobal && len(a.Path) == 0 && !g.P.MutableGlobals[a.Glob] && v.K == VScalar && isErrorType(ty) {
 		g.sentinel(v.T)
